@@ -524,7 +524,34 @@ def router_check(chk, prop, stops, rule):
         why = router_oracle(c, rec, prop)
         if why:
             fails.append((c, rec, fl, why))
-    for c, rec, fl, why in fails[:8]:
+    # one route of each kind (callback, the router's own crossbeam channel, the consumer's crossbeam sender) carrying messages of very
+    # different sizes - single packets next to several MiB: once each, whole, in send order, the end after the last
+    if prop == "C07":
+        slines = ["id=%d op=sizes sizes=%s" % (9500 + i, ",".join(str(x) for x in sz)) for i, sz in enumerate(
+            [[10, 2200000, 10, 30, 1100000, 5, 300000, 10], [1100000, 8], [8, 8, 8], [500000, 1048576, 1048575, 40, 4000000, 12]])]
+        for fl in ("default", "inprocess"):
+            srecs, _, src, serr = C.run_harness(bins[fl], "router", slines, shim=False, timeout=300)
+            sby = {r["id"]: r for r in srecs if r.get("kind") == "sizes"}
+            for i, l in enumerate(slines):
+                r = sby.get(9500 + i)
+                why = None
+                if r is None:
+                    why = "the scenario did not complete: %s" % serr[-200:]
+                else:
+                    want = [[q, n, True] for q, n in enumerate(r["sizes"])]
+                    for kind, label in (("callback", "callback route"), ("new_receiver", "route to a new crossbeam receiver"), ("own_sender", "route to the consumer's crossbeam sender")):
+                        g = r[kind]
+                        if g["got"] != want:
+                            why = "%s: messages of sizes %s arrived as %s (seq, length, intact)" % (label, r["sizes"], g["got"][:10])
+                            break
+                        if kind != "callback" and not g["ended"]:
+                            why = "%s: the consumer never saw the end after the senders had gone" % label
+                            break
+                if why:
+                    fails.append((None, r, fl, why))
+                    chk.failing_input("routes carrying messages of very different sizes: " + why, {"build": fl, "scenario": l, "observed": r}, key="sizes:%s:%d" % (fl, i))
+        chk.coverage["mixed_size_route_scenarios"] = 2 * len(slines)
+    for c, rec, fl, why in [f for f in fails if f[0] is not None][:8]:
         chk.failing_input(why, {"build": fl, "scenario": router_line(c), "observed": rec and {k: rec[k] for k in ("stop_ok", "panicked", "log_at_return", "log_after")},
                                 "log_before_stop": rec and rec["log_before_stop"][:30]}, key="%s:%s" % (fl, router_line(c)[:300]))
     todo = [(i, router_model_term(c, rec)) for i, (c, rec, fl) in enumerate(items) if rec is not None and fl == "default"]
@@ -737,6 +764,13 @@ def gen_timed(rng, n):
             ops.append("T%d" % us)
             model.append("(MTimeout %d, %s, None)" % (us, state))
             d = us
+        elif r < 0.84 and state == "QIdle" and alive:
+            # a timed wait on the idle channel cut short by a signal: an I/O error, never 'empty'
+            us = rng.choice([5000, 20000, 60000, 2000000])
+            ops.append("I%d" % us)
+            model.append("(MTimeout %d, QIdle, None, true)" % us)
+            state = "Interrupted"
+            d = None
         elif r < 0.88 and state != "QIdle":
             ops.append("b")
             model.append("(MBlocking, %s, None)" % state)
@@ -766,6 +800,8 @@ def gen_timed(rng, n):
             alive = False
         elif state == "QDead":
             expect.append("ODisconnected")
+        elif state == "Interrupted":
+            expect.append("OError")
         else:
             expect.append("OEmpty")
         meta.append({"op": ops[-1], "timeout_us": d, "state": state})
@@ -806,7 +842,16 @@ def check_C10(chk):
         return [(c, by.get(c["id"]), trace, fl) for c in chunk]
     with concurrent.futures.ThreadPoolExecutor(max_workers=12) as ex:
         items = [it for r in ex.map(run, chunks) for it in r]
-    items += run(cases[:12], "inprocess")
+    # the in-process build runs without the interposer: no signal is delivered there, an `I` operation is a plain timed wait
+
+    def plain(c):
+        c2 = dict(c, ops=[("T%d" % min(int(o[1:]), 20000)) if o[0] == "I" else o for o in c["ops"]], expect=list(c["expect"]), meta=[dict(m) for m in c["meta"]])
+        for j, m in enumerate(c2["meta"]):
+            if m["state"] == "Interrupted":
+                m.update(op="T%d" % min(int(m["op"][1:]), 20000), state="QIdle", timeout_us=min(int(m["op"][1:]), 20000))
+                c2["expect"][j] = "OEmpty"
+        return c2
+    items += run([plain(c) for c in cases[:12]], "inprocess")
     fails, todo = [], []
     for k, (c, rec, trace, fl) in enumerate(items):
         why = None
@@ -814,6 +859,10 @@ def check_C10(chk):
             why = "harness produced no record: a receive blocked for ever or the process died"
         else:
             for r, e, m in zip(rec["results"], c["expect"], c["meta"]):
+                if m["state"] == "Interrupted" and r["out"] == "OEmpty":
+                    why = ("try_recv_timeout(%s us) on a connected, idle channel whose wait was cut short by a signal (poll: EINTR) reported 'empty' after only %d us: the requested "
+                           "time had not passed (an I/O error is what the unchanged code reports)" % (m["op"][1:], r["us"]))
+                    break
                 if r["out"] != e:
                     why = "operation %s returned %s where %s is required (channel state when it looked: %s)" % (r["op"], r["out"], e, m["state"])
                     break
@@ -843,14 +892,19 @@ def check_C10(chk):
                 if r.get("fd") != main_fd:
                     continue
                 if r["call"] == "setfl":
-                    calls.append("CSetfl %s" % ("true" if r["nonblock"] else "false"))
+                    calls.append("SCall (CSetfl %s)" % ("true" if r["nonblock"] else "false"))
+                elif r["call"] == "poll" and r["res"] < 0:
+                    calls.append("SPollIntr (%d)" % r["timeout"])
                 elif r["call"] == "poll":
-                    calls.append("CPoll (%d) %s" % (r["timeout"], "true" if r["res"] > 0 else "false"))
+                    calls.append("SCall (CPoll (%d) %s)" % (r["timeout"], "true" if r["res"] > 0 else "false"))
                 elif r["call"] == "recvmsg":
-                    calls.append("CRecvmsg %s" % ("true" if calls and calls[-1] == "CSetfl true" else "false"))
-            # the model speaks about the transport: an undecodable message is a message taken from the queue
-            outs = ["OMsg" if (x["out"] == "OError" and e == "OError") else x["out"] for x, e in zip(rec["results"], c["expect"])]
-            todo.append((k, "check_timed [%s] [%s] [%s]" % ("; ".join(c["model"]), "; ".join(outs), "; ".join(calls))))
+                    calls.append("SCall (CRecvmsg %s)" % ("true" if calls and calls[-1] == "SCall (CSetfl true)" else "false"))
+            # the model speaks about the transport: an undecodable message is a message taken from the queue; the I/O error of an
+            # interrupted wait is the model's SInterrupted
+            outs = [("SInterrupted" if m["state"] == "Interrupted" and x["out"] == "OError" else
+                     "SOut OMsg" if (x["out"] == "OError" and e == "OError") else "SOut %s" % x["out"]) for x, e, m in zip(rec["results"], c["expect"], c["meta"])]
+            mops = [t if t.count(",") == 3 else t[:-1] + ", false)" for t in c["model"]]
+            todo.append((k, "check_timed_sig [%s] [%s] [%s]" % ("; ".join(mops), "; ".join(outs), "; ".join(calls))))
     for c, rec, fl, why in fails[:8]:
         chk.failing_input(why, {"build": fl, "sequence": ",".join(c["ops"]), "observed": rec and rec["results"]}, key="%s:%s" % (fl, ",".join(c["ops"])))
     # a timed receive on a connected, idle channel right after another sender process died at any point of a multi-fragment send
